@@ -130,7 +130,11 @@ class P(Prop):
                 "(`delta is None` -> npts/factor with the (1+1e-8) guard, SRID read, dispatcher call, reset of the feature table), Track.__floordiv__, __pow__, "
                 "__mul__ (number); tracklib/core/track_collection.py TrackCollection.resample and __floordiv__ (temporal mode since the fix commit ea8666e); ENUCoords.distance2DTo/distanceTo as sqrt parameters; "
                 "ObsTime.toAbsTime/readUnixTime through the C03 model (stampOf)")
-    trusted = ["C05: the Rat instantiation of the model runs on inputs whose leg lengths are exact square roots (else the Float instantiation only); "
+    trusted = ["C05: for the forms that give a number of points instead of a step (npts= / factor= / track ** n / track * k) the oracle does not assume which step the "
+               "library derives: it recovers the constant step from the output (position of one observation on the original polyline; the stamps alone on a track that "
+               "does not move) and demands the property's full answer -- count included -- for that step (`spec_derived`; theorem npts_exhibits_step); the derived step "
+               "itself, (1+1e-8) x (3D length | duration) / npts, is checked by the correspondence with the model only",
+               "C05: the Rat instantiation of the model runs on inputs whose leg lengths are exact square roots (else the Float instantiation only); "
                "the stamp of an output is the C03 model applied to floor(1000 t) (Model/Resample.lean stampOf)",
                "C05: for synchronize() the oracle holds each track against the property for the request that track actually received, recorded at the door of "
                "Track.resample (which instants synchronize chooses is checked by the correspondence with the model, theorem synchronize_spec)"]
@@ -147,7 +151,8 @@ class P(Prop):
             "synchronize(t, t), TrackCollection.resample and collection // ref on 1..3 tracks; operators must leave their operand unchanged); plus a float stream (arbitrary "
             "coordinates, arbitrary ms), a history stream (abs_curv / ds / speed / heading computed or user features with those names, uid/base/no_data/zone set, "
             "copy, then in-place edits setX/setY/setZ/scale/translate/removeObs, then resample; model and oracle see the final geometry) and an error/edge stream (ds<=0, npts=0, other mode, duplicate stamps, empty track). "
-            "A call that does not return within 1 s of CPU time is reported as raising TimeoutError. non-trivial = at least 3 fixes and at least 2 expected output observations")
+            "npts / factor / ** / * are generated on tracks whose height varies (3D length > 2D length) in both modes; "
+            "A call that does not return within 6 s of CPU time is reported as raising TimeoutError. non-trivial = at least 3 fixes and at least 2 expected output observations")
     rel_tol = 1e-9
     include_unsorted = True     # stream of unsorted instant lists (former finding `unsorted-request-list`, repaired by ee0419b; theorem T1')
 
